@@ -518,7 +518,7 @@ def names_phase(ctx, driver, root):
     r = ctx.rng
     sft = sf_types()
     contents = probe_contents()
-    names = gen_names(r, ctx.scale(420, 6000))
+    names = gen_names(r, ctx.scale(900, 8000))
     lines, expect = [], []
     for name in names:
         if ctx.out_of_time():
@@ -907,7 +907,7 @@ def compare_dispatch(ctx, case, c, res, exp, o):
 def roundtrip_phase(ctx, driver, root):
     u = util()
     r = ctx.rng
-    n = ctx.scale(700, 14000)
+    n = ctx.scale(2000, 30000)
     lines, expect = [], []
     cases = []
     # every container x access at least once, then random
@@ -1100,7 +1100,7 @@ def wds_phase(ctx, root):
         for key in (VALID_KEY[k], "x/y." + k if k not in ("flac",) else "x/y.flac", k if k == "flac" else "z." + k):
             case = dict(kind="wds", mode="valid", content=k, key=key)
             wds_one(ctx, u, case, key, contents[k][0], contents[k][1])
-    n = ctx.scale(1500, 40000)
+    n = ctx.scale(5000, 120000)
     for i in range(n):
         if ctx.out_of_time():
             ctx.note("wds: stopped after %d cases (time)" % i)
@@ -1195,7 +1195,7 @@ def h5_phase(ctx, driver, root):
     u = util()
     r = ctx.rng
     lines, expect = [], []
-    trees = [gen_tree(r, 0, [0]) for _ in range(ctx.scale(150, 3000))]
+    trees = [gen_tree(r, 0, [0]) for _ in range(ctx.scale(400, 6000))]
     trees[:0] = [[], [["g", "a", []]], [["d", "x", 1]], [["g", "b", [["d", "x", 1]]], ["g", "a", [["g", "e", []], ["g", "d", [["d", "f", 2], ["d", "E", 3]]]]], ["d", "g", 4]]]
     path = os.path.join(root, "tree.hdf5")
     for kids in trees:
